@@ -276,9 +276,9 @@ def rand_output(seed: int, big: bool = False, nonfinite: bool = False):
                 for j in range(min(e, steps)):
                     actions[e, rep, j] = rnd.randint(0, 31)
     func = rnd.choice([eval_func, solve_like, lambda *a: None, Thing()])
-    ns = Namespace(func=func, model_dir=Path(rnd.choice(["/x/y", ".", "rel/ü dir"])), seed=rnd.randint(-9, 2 ** 40),
+    ns = Namespace(func=func, model_dir=Path(rnd.choice(["/x/y", ".", "rel/ü dir", "/srv/r\udce9sultats"])), seed=rnd.randint(-9, 2 ** 40),
                    name=None, lr=rnd.choice([0.5, 0.1, 1e-5, 3.0]), flag=rnd.random() < 0.5,
-                   text=rnd.choice(["plain", "ü \"quoted\" \\ back", "", "line\nbreak"]),
+                   text=rnd.choice(["plain", "ü \"quoted\" \\ back", "", "line\nbreak", "not utf-8: \udce9"]),
                    sizes=[1, 2.5, "x", None], pair=(1, 2))
     if rnd.random() < 0.5:
         ns.callback = solve_like          # a callable other than func → repr string
@@ -296,7 +296,7 @@ def rand_output(seed: int, big: bool = False, nonfinite: bool = False):
 # names: plain, awkward for JSON / file names, EQUAL TO KEYS NESTED INSIDE EARLIER ENTRIES ("metadata", "actions", "net_arch", "pi" —
 # an entry name is a top-level key only), and dotted names that share everything up to their last dot (two runs of one sweep,
 # two ISO time stamps of one second: `with_suffix` would map them to one plot file)
-NAMES = ["a", "b", "run 1", "ü", "", "data", "x/y", "a" * 40, "NaN", "q\"uote", "new\nline", "0",
+NAMES = ["a", "b", "run 1", "ü", "", "data", "x/y", "a" * 40, "NaN", "q\"uote", "new\nline", "0", "r\udce9sultats",
          "metadata", "actions", "net_arch", "pi", "sweep.lr0.1", "sweep.lr0.2", "2026-01-01T10:00:00.123", "2026-01-01T10:00:00.456", "a.b"]
 SIBLING_NAMES = [("sweep.lr0.1", "sweep.lr0.2"), ("2026-01-01T10:00:00.123", "2026-01-01T10:00:00.456"), ("a.b", "a.c")]
 FULL_NAMES = ["a", "b", "run 1", "ü", "data", "NaN", "q\"uote", "0", "data.json",     # usable as a file / directory name by the plot savers
@@ -375,17 +375,35 @@ def c19_history(res: StreamResult, script: Script | None, d: Path, sid: str, sav
         script.add(f"store reset {sid}", "ok")
     spec: dict[str, tuple] = {}          # name → (data, actions, expected meta) of the FIRST save under it
     info = {"repeated": False, "has_nan": False, "failed_saves": 0}
+    prev_out = prev_kind = None
     for step, sv in enumerate(saves):
         name = sv["name"]
-        out, kind = rand_output(sv["seed"], sv["big"], sv.get("nonfinite", False))
+        reuse = sv.get("reuse") if prev_out is not None else None
+        if reuse:
+            # the caller keeps ONE Output object: it was saved before, its matrices are then replaced (normalised gaps, a
+            # truncated run) or edited in place (a corrected cell), and it is saved again — what must reach the file is what
+            # the object holds NOW
+            fresh, kind_f = rand_output(sv["seed"], sv["big"], sv.get("nonfinite", False))
+            out = prev_out
+            if reuse == "reassign":
+                out.data, out.actions, kind = fresh.data, fresh.actions, kind_f
+            else:
+                out.data[0, 0] = float(sv["seed"] % 97) + 0.5
+                out.actions.flat[out.actions.size - 1] = sv["seed"] % 31
+                kind = prev_kind
+            res.count(f"reused-output:{reuse}")
+        else:
+            out, kind = rand_output(sv["seed"], sv["big"], sv.get("nonfinite", False))
         exp_meta = meta_expected(out.parsed_args)
         poison = sv.get("poison")
         if poison:
             poison_output(out, poison)
+        prev_out, prev_kind = (None, None) if poison else (out, kind)
         data0, act0 = out.data.copy(), out.actions.copy()      # taken BEFORE the save: what the run produced
         snap = caller_snapshot(out)
         rp = {"kind": "save-history", "history": saves[:step + 1], "step": step,
-              "how": "in an empty directory, for every element of `history`: out = rand_output(seed, big, nonfinite)[0]; poison_output(out, "
+              "how": "in an empty directory, for every element of `history`: out = rand_output(seed, big, nonfinite)[0] (with `reuse`: the PREVIOUS Output object, "
+                     "its matrices replaced by those of rand_output(seed, …) / two cells edited in place); poison_output(out, "
                      "poison) if poison; then save_json(dir/'data.json', name, out) — or save(dir, name, out) with all SAVERS (matplotlib "
                      "Agg) when via = 'full' — and read the file back (check.py C19 --replay <this file>)"}
         before = p.read_bytes() if p.exists() else None
@@ -550,6 +568,8 @@ def run_c19(tier, budget: Budget, rnd) -> StreamResult:
                 # holds some, never as the very first save of histories 0 mod 4 (so that an earlier file exists)
                 if h % 2 == 0 and rnd.random() < (0.3 if step else 0.1 if h % 4 else 0.0):
                     sv["poison"] = rnd.choice(POISONS)
+                elif h % 2 == 1 and step and rnd.random() < 0.3:
+                    sv["reuse"] = rnd.choice(["reassign", "inplace"])
                 saves.append(sv)
             info = c19_history(res, script, base / f"h{h}", f"s{h}", saves)
             if info["repeated"] and info["names"] >= 2 and info["has_nan"]:
